@@ -9,7 +9,10 @@ Part 1 (exhaustive, sharded): 7 listen hosts x 9 mode specs (tcp / udp / "both" 
 (localhost in several cases / trailing dot, 127.0.0.0/8 boundaries and samples, ::1 in three spellings, IPv4-mapped loopback
 dotted and hex, 0.0.0.0, ::, the explicit listen addresses in alternative spellings, unrelated hosts) x {listen port, other
 port} x {tcp, udp}.
-Part 2 (Hypothesis): two-server configurations, random 127/8 and random other addresses, random ports.
+Part 2 (Hypothesis): two-server configurations, random 127/8 and random other addresses, random ports; one third of the
+cases are *histories*: 2-8 connection attempts (mixing transports, ports and up to three destination spellings) and
+reconfigurations (new server table + the `servers.changed` signal) on ONE Proxyserver instance, every attempt judged by
+the same oracle against the configuration in force -- a verdict must not depend on earlier attempts.
 Part 3 (wiring, a third of a reduced table in the quick tier): the same rows are pushed through the real
 `ConnectionHandler.open_connection` with `Proxyserver.server_connect` answering the hook and both connect primitives
 replaced by recorders: "blocked" then means that no connection attempt was made and the layer got a failure reply.
@@ -44,7 +47,7 @@ ASSUMPTIONS = [
 LEVEL_TEXT = ("All spelling classes named by the property are crossed with all listen host / mode classes (exhaustive over "
               "that finite table); multi-server configurations and arbitrary addresses are sampled.")
 LEVEL_NOTE = "table part exhaustive; Proxyserver.servers is populated through its private _instances dict"
-QUICK_N, THOROUGH_N = 60_000, 2_000_000
+QUICK_N, THOROUGH_N = 40_000, 2_000_000
 
 LISTEN_HOSTS = ["", "0.0.0.0", "::", "127.0.0.1", "::1", "192.168.1.5", "fd00::5"]
 MODES = ["regular", "socks5", "transparent", "upstream:http://proxy.test:3128", "reverse:https://example.test",
@@ -243,16 +246,9 @@ def wired_connect(ps, client, server, ctx):
     return not attempts
 
 
-def check_case(case, ctx):
-    """case = [[ [mode_spec, listen_host, listen_port], ... ], dest_host, dest_port, dest_transport(, "wire")]"""
-    from mitmproxy import connection
-    from mitmproxy.addons.proxyserver import Proxyserver
-    from mitmproxy.proxy import server_hooks
+def install_servers(ps, servers):
+    """put stub server instances for `servers` into ps.servers; returns [(mode transport, listen host, port)]"""
     from mitmproxy.proxy.mode_specs import ProxyMode
-
-    wire = len(case) == 5 and case[4] == "wire"
-    servers, dhost, dport, dtrans = case[:4]
-    ps = Proxyserver()
     inst = {}
     conf = []
     for spec, lhost, lport in servers:
@@ -268,20 +264,79 @@ def check_case(case, ctx):
     ps.servers._instances = inst
     if len(list(ps.servers)) != len(inst):
         raise HarnessError("stub servers not visible through Proxyserver.servers")
+    return conf
+
+
+def servers_changed(ps):
+    """what Servers.update() does after every (re)configuration: emit the `changed` signal"""
+    import asyncio
+    sig = getattr(ps.servers, "changed", None)
+    if sig is None:
+        raise HarnessError("Proxyserver.servers has no `changed` signal")
+    r = sig.send()
+    if asyncio.iscoroutine(r):
+        loop = asyncio.new_event_loop()
+        try:
+            loop.run_until_complete(r)
+        finally:
+            loop.close()
+
+
+def check_case(case, ctx):
+    """case = [[ [mode_spec, listen_host, listen_port], ... ], dest_host, dest_port, dest_transport(, "wire")]
+       or     ["hist", servers, [dest hosts], [ ["c", dest index, port, transport] | ["reconf", servers] , ...]]:
+              several connection attempts (and reconfigurations) on ONE Proxyserver instance"""
+    from mitmproxy.addons.proxyserver import Proxyserver
+    ps = Proxyserver()
+    if case and case[0] == "hist":
+        _, servers, dests, ops = case
+        conf = install_servers(ps, servers)
+        servers_changed(ps)
+        seen = []
+        for op in ops:
+            if op[0] == "reconf":
+                servers = op[1]
+                conf = install_servers(ps, servers)
+                servers_changed(ps)
+                seen = []
+                ctx.cls("history: reconfiguration")
+                continue
+            dhost, dport, dtrans = dests[op[1] % len(dests)], op[2], op[3]
+            # has the same host/port been tried with the other transport, or another spelling of the port, before?
+            tag = ("after-other-transport" if (dhost, dport, "udp" if dtrans == "tcp" else "tcp") in seen else
+                   "repeat" if (dhost, dport, dtrans) in seen else "after-others" if seen else "first")
+            seen.append((dhost, dport, dtrans))
+            if one_connect(ps, conf, servers, dhost, dport, dtrans, False, ctx, "history:" + tag) is None:
+                return
+        return
+    wire = len(case) == 5 and case[4] == "wire"
+    servers, dhost, dport, dtrans = case[:4]
+    conf = install_servers(ps, servers)
+    one_connect(ps, conf, servers, dhost, dport, dtrans, wire, ctx, "")
+
+
+def one_connect(ps, conf, servers, dhost, dport, dtrans, wire, ctx, tag):
+    """one server_connect on `ps`; judged against the listen configuration `conf`.  `tag` (history position) becomes part
+    of the buckets: a verdict that is only wrong after earlier calls has another cause than a wrong single verdict."""
+    from mitmproxy import connection
+    from mitmproxy.proxy import server_hooks
+    suffix = (":" + tag) if tag and tag != "history:first" else ""
     server = connection.Server(address=(dhost, dport), transport_protocol=dtrans)
     client = connection.Client(peername=("192.0.2.9", 50000), sockname=("192.0.2.1", 8080), timestamp_start=1.0,
                                transport_protocol=dtrans)
     if wire:
         blocked = wired_connect(ps, client, server, ctx)
         if blocked is None:
-            return
+            return None
     else:
         try:
             ps.server_connect(server_hooks.ServerConnectionHookData(server=server, client=client))
         except Exception as e:
             ctx.crash(e)
-            return
+            return None
         blocked = bool(server.error)
+    if tag:
+        ctx.cls(tag)
 
     rels = []
     same_port = False
@@ -311,7 +366,7 @@ def check_case(case, ctx):
         canonical = dhost in ("localhost", "127.0.0.1", "::1") or verbatim
         if canonical:
             spelling = "canonical"
-        ctx.nt((tuple(map(tuple, servers)), dhost, dport, dtrans), "denotes: %s, mode transport %s" % (spelling, who[0]))
+        ctx.nt((tuple(map(tuple, servers)), dhost, dport, dtrans, tag), "denotes: %s, mode transport %s" % (spelling, who[0]))
         if not blocked:
             if not canonical:
                 bucket = "not-blocked:spelling:%s" % spelling
@@ -319,21 +374,22 @@ def check_case(case, ctx):
                 bucket = "not-blocked:both-mode"
             else:
                 bucket = "not-blocked:canonical-same-transport"
-            ctx.fail(bucket, "destination %s:%d/%s denotes the listening socket of %r but server.error is not set"
+            ctx.fail(bucket + suffix, "destination %s:%d/%s denotes the listening socket of %r but server.error is not set"
                      % (dhost, dport, dtrans, conf))
     elif "unspecified" in kinds:
-        ctx.nt((tuple(map(tuple, servers)), dhost, dport, dtrans), "unspecified: %s" % spelling)
+        ctx.nt((tuple(map(tuple, servers)), dhost, dport, dtrans, tag), "unspecified: %s" % spelling)
     else:
         if same_port:
-            ctx.nt((tuple(map(tuple, servers)), dhost, dport, dtrans),
+            ctx.nt((tuple(map(tuple, servers)), dhost, dport, dtrans, tag),
                    "same port, %s" % ("other transport" if "other-transport" in kinds else "other host"))
         else:
             ctx.cls("other port")
         unrelated = (not same_port) or (public_host(dhost) and "other-transport" not in kinds)
         if blocked and unrelated:
-            ctx.fail("blocked-unrelated:%s" % ("other-port" if not same_port else spelling),
+            ctx.fail("blocked-unrelated:%s%s" % ("other-port" if not same_port else spelling, suffix),
                      "destination %s:%d/%s is not one of the listening sockets %r but got error %r"
                      % (dhost, dport, dtrans, conf, server.error))
+    return blocked
 
 
 def strategy(ctx):
@@ -345,8 +401,16 @@ def strategy(ctx):
         lambda bs: st.sampled_from(["", "."]).map(
             lambda dot: "".join(c.upper() if b else c for c, b in zip("localhost", bs)) + dot))
     dest = st.one_of(st.sampled_from(DESTS), st.sampled_from(DESTS), rnd_loop, rnd_mapped, rnd_v4, lh_case)
-    return st.tuples(st.lists(srv, min_size=1, max_size=2), dest, st.sampled_from(PORTS), st.sampled_from(["tcp", "udp"])).map(
+    single = st.tuples(st.lists(srv, min_size=1, max_size=2), dest, st.sampled_from(PORTS), st.sampled_from(["tcp", "udp"])).map(
         lambda t: [[list(s) for s in t[0]], t[1], t[2], t[3]])
+    # histories: few destinations and ports per history, so that the same host/port recurs with both transports
+    servers = st.lists(srv, min_size=1, max_size=2).map(lambda l: [list(x) for x in l])
+    connect = st.tuples(st.just("c"), st.integers(0, 2), st.sampled_from([8080, 8080, 8081, 53]), st.sampled_from(["tcp", "udp"]))
+    op = st.one_of(connect, st.tuples(connect).map(lambda t: t[0]), st.tuples(st.tuples(connect).map(lambda t: t[0])).map(lambda t: t[0]),
+                   st.tuples(st.just("reconf"), servers))
+    hist = st.tuples(servers, st.lists(dest, min_size=1, max_size=3), st.lists(op, min_size=2, max_size=8)).map(
+        lambda t: ["hist", t[0], list(t[1]), [list(o) for o in t[2]]])
+    return st.one_of(single, st.tuples(single).map(lambda t: t[0]), hist)
 
 
 def run(ctx):
